@@ -527,9 +527,14 @@ impl Exec {
 // ---------------------------------------------------------------- generator
 
 fn lorawan_row(k: u32, m: usize) -> Vec<u8> {
-    let mut row = BitArray::<[u8; 2048]>::ZERO;
-    flash_algo_new::fragmentation::get_parity_matrix_row(k, m as u32, &mut row);
-    row.as_raw_slice()[..(m + 7) / 8].to_vec()
+    let row = crate::rows::parity_row(k, m, false).unwrap_or_else(|| vec![false; m]);
+    let mut v = vec![0u8; (m + 7) / 8];
+    for (i, b) in row.iter().enumerate() {
+        if *b {
+            v[i / 8] |= 1 << (i % 8);
+        }
+    }
+    v
 }
 
 fn xor_into(a: &mut [u8], b: &[u8]) {
